@@ -111,6 +111,7 @@ func c20(args []string) {
 		file := filepath.Join(dir, "history")
 		stash := st.Kind == "stash"
 		loadFailed := ""
+		curLimit := st.Limit // the configured limit: changed by "limit" operations, kept over restarts (it is a saved setting)
 		load := func() c20Store {
 			if stash {
 				sh := &repl.Stash{}
@@ -126,7 +127,7 @@ func c20(args []string) {
 				return sh
 			}
 			hist := &repl.History{}
-			hist.SetLimit(st.Limit)
+			hist.SetLimit(curLimit)
 			hist.Load(file)
 			return hist
 		}
@@ -186,7 +187,7 @@ func c20(args []string) {
 			if i+1 < len(st.Ops) && st.Ops[i+1].Op == "crash" {
 				crash = &st.Ops[i+1]
 			}
-			ev := h.V{"t": st.ID, "i": i, "op": op.Op, "limit": st.Limit, "crashed": false, "form": [][]int{}, "a": op.A, "b": op.B, "loaded": [][][]int{}}
+			ev := h.V{"t": st.ID, "i": i, "op": op.Op, "limit": curLimit, "crashed": false, "form": [][]int{}, "a": op.A, "b": op.B, "loaded": [][][]int{}}
 			switch op.Op {
 			case "add":
 				form := c20Form(op.F)
@@ -208,6 +209,12 @@ func c20(args []string) {
 			case "clear":
 				pending := func(k int) []byte { return hist.Nth(hist.Size() - k).TabAppend(nil) }
 				ev["crashed"] = guarded(crash, pending, func() { hist.Clear(op.A, op.B) })
+			case "limit":
+				// (setq *repl-history-limit* n): History.SetLimit on the running session
+				curLimit = op.F
+				if hl, ok := hist.(*repl.History); ok {
+					hl.SetLimit(op.F)
+				}
 			case "crash":
 				// the process is gone; the next session loads what the files hold
 				hist = load()
